@@ -24,7 +24,7 @@ func (o boolSyms) GetSymbolType(name string) (ast.NodeType, bool) {
 	}
 	if len(name) == 2 && name[1] >= 'a' && name[1] <= 'h' {
 		switch name[0] {
-		case 'n':
+		case 'n', 'm':
 			return ast.NodeTypeInt64, true
 		case 's':
 			return ast.NodeTypeString, true
@@ -52,6 +52,13 @@ func (o boolSyms) EvalInt64(name string) *int64 {
 	if len(name) != 2 {
 		return nil
 	}
+	if name[0] == 'm' { // the field is 1 when the atom holds and missing (null) when it does not
+		if o.vals[name[1:]] {
+			v := int64(1)
+			return &v
+		}
+		return nil
+	}
 	v := int64(0)
 	if o.vals[name[1:]] {
 		v = 1
@@ -60,7 +67,9 @@ func (o boolSyms) EvalInt64(name string) *int64 {
 }
 func (o boolSyms) EvalFloat64(string) *float64                         { return nil }
 func (o boolSyms) EvalDatetime(string) *time.Time                      { return nil }
-func (o boolSyms) IsNil(string) bool                                   { return false }
+func (o boolSyms) IsNil(name string) bool {
+	return len(name) == 2 && name[0] == 'm' && !o.vals[name[1:]]
+}
 func (o boolSyms) OpenSetCursor(string) ast.SetCursor                  { return ast.NewEmptyCursor() }
 func (o boolSyms) OpenSetCursorForQuery(string, ast.Query) ast.SetCursor { return ast.NewEmptyCursor() }
 
@@ -152,6 +161,12 @@ func spell(toks []string, variant int) string {
 					"s" + name + ws() + kw("not") + ws() + kw("contains") + ws() + `"y"`,
 					"s" + name + ws() + kw("icontains") + ws() + `"X"`,
 					"s" + name + ws() + kw("not") + ws() + kw("icontains") + ws() + `"Y"`,
+					// ordering comparisons of a field that is missing when the atom is false (a comparison with null is false,
+					// and its negation true: `not (P)` is the negation of P, not P with the operator turned round)
+					"m" + name + optws() + ">" + optws() + "0",
+					"m" + name + optws() + "<" + optws() + "2",
+					"m" + name + optws() + ">=" + optws() + "1",
+					"m" + name + optws() + "<=" + optws() + "1",
 				}
 				b.WriteString(forms[pick(len(forms))])
 			default:
